@@ -74,6 +74,7 @@ def run_fuzz_job(job, col, pid):
                    VF_FUZZ_KNOWN=json.dumps(sorted(col.known_sigs)))
         cmd = [sys.executable, "-m", module, corpus, "-runs=%d" % job["runs"], "-seed=%d" % (job["seed"] % (2 ** 31 - 1) + 1),
                "-max_len=%d" % job.get("max_len", 1500), "-dict=" + dict_path, "-artifact_prefix=" + work + "/", "-print_final_stats=1"]
+        cmd.append("-timeout=%d" % job.get("unit_timeout", 30))
         if job.get("max_total_time"):
             cmd.append("-max_total_time=%d" % job["max_total_time"])
         p = subprocess.run(cmd, cwd=ROOT, env=env, stdout=subprocess.PIPE, stderr=subprocess.STDOUT, text=True, errors="replace")
@@ -88,6 +89,20 @@ def run_fuzz_job(job, col, pid):
             for line in open(out):
                 rec = json.loads(line)
                 col.fail(rec["case"], rec["sig"], rec.get("detail", ""))
+        if p.returncode != 0 and "libFuzzer: timeout" in (p.stdout or ""):
+            # one input kept the target busy for more than unit_timeout seconds: a hang of the code under test, reported as a failure
+            import glob
+            arts = sorted(glob.glob(os.path.join(work, "timeout-*")))
+            raw = open(arts[0], "rb").read() if arts else b""
+            case = None
+            if pid == "C16":
+                from . import proxy_codec
+                case = proxy_codec.decode(raw)
+            elif len(raw) >= 3:
+                case = {"stream": raw[2:].decode("latin-1"), "adj": {}}
+            col.fail(case or {"raw": raw.decode("latin-1")}, "%s/hang" % pid, "a %d-byte fuzz input kept the code under test busy for more than %d s" % (
+                len(raw), job.get("unit_timeout", 30)))
+            return
         if p.returncode != 0 and not os.path.exists(stats):
             raise RuntimeError("fuzz target failed to run:\n" + p.stdout[-1500:])
         if p.returncode != 0 and "ERROR: libFuzzer" in p.stdout:
